@@ -445,7 +445,8 @@ class MarkdownNormalizer(Renderer):
 
         # Preserve code content without reformatting.
         code_child = cast(inline.RawText, element.children[0])
-        code_content = code_child.children.rstrip("\n")
+        # Drop only the line terminator of the last line, not trailing blank lines.
+        code_content = code_child.children.removesuffix("\n")
         lang = element.lang if isinstance(element, block.FencedCode) else ""
         extra = element.extra if isinstance(element, block.FencedCode) else ""
         extra_text = f" {extra}" if extra else ""
@@ -471,7 +472,8 @@ class MarkdownNormalizer(Renderer):
         # Don't add prefix to empty lines to avoid trailing whitespace.
         # Use rstrip() to preserve structural prefixes like ">" for blockquotes.
         empty_line_prefix = self._second_prefix.rstrip()
-        for line in code_content.splitlines():
+        # Only "\n" ends a line here (`splitlines()` would also split on e.g. U+2028).
+        for line in code_content.split("\n") if code_child.children else []:
             if line:
                 lines.append(f"{self._second_prefix}{line}")
             else:
